@@ -621,3 +621,32 @@ func init() {
 		Outside: []string{"Manager.Run / Restart / runTask schedules", "compiled integrations"},
 	})
 }
+
+func init() {
+	register(&PropSpec{
+		ID:   "C16",
+		Pkgs: []string{"./shovel/config"},
+		Runs: func(tier string) []HRun {
+			var rs []HRun
+			for a := 0; a <= 3; a++ {
+				rs = append(rs, HRun{Pkg: "./shovel/config", Fn: "ZZ_C16_Schema", Params: []int{a, -1, 0}})
+				for b := 0; b <= 3; b++ {
+					for sh := 0; sh <= 1; sh++ {
+						rs = append(rs, HRun{Pkg: "./shovel/config", Fn: "ZZ_C16_Schema", Params: []int{a, b, sh}, MaxPaths: 100000})
+					}
+				}
+				for w := 0; w <= 2; w++ {
+					rs = append(rs, HRun{Pkg: "./shovel/config", Fn: "ZZ_C16_Missing", Params: []int{a, w}})
+				}
+			}
+			return rs
+		},
+		Assumptions: []string{
+			"integration shapes: transaction fields, log with an indexed selected input, log with a non-indexed selected array input, trace fields (4 shapes, all ordered pairs, shared table or not); user-declared identity column, column order, declaration order and how many columns of each table already exist in the database are case-split (enumerated, not solver-quantified)",
+			"the database's answer to information_schema.columns is cut at pgx.CollectRows inside wpg.Diff; DDL/alter statements are read back from their text; 'create unique index if not exists u_<table>' semantics: the first statement executed for a table wins",
+			"key projection: the key must contain the identity columns that tell the integration's rows apart (ig_name, src_name, block_num, tx_idx + log_idx / abi_idx / trace_action_idx by shape) and only columns the integration writes (a NULL key column never collides); the node reports distinct (block, tx_idx, log_idx) per log",
+		},
+		Bounds:  map[string]string{"quick": "4 shapes alone + 16 ordered pairs x {separate, shared table} + 12 rejection cases", "thorough": "same"},
+		Outside: []string{"user-supplied unique lists", "Postgres' own DDL semantics"},
+	})
+}
